@@ -27,8 +27,8 @@ import (
 )
 
 type vfC07Pre struct {
-	Kind  string `json:"kind"`
-	Dir   string `json:"dir"` // sendrecv|sendonly|recvonly ; "track" = AddTrack
+	Kind  string      `json:"kind"`
+	Dir   string      `json:"dir"` // sendrecv|sendonly|recvonly ; "track" = AddTrack
 	Prefs *vfFamBPref `json:"prefs,omitempty"`
 }
 
